@@ -112,3 +112,53 @@ Example mpint_noncanonical_accepted :
   parse_ssh_mpint (map z2b [0; 0; 0; 3; 0; 0; 127]) 0 = Ok (127, 7) /\
   compose_ssh_mpint 127 = Ok (map z2b [0; 0; 0; 1; 127]).
 Proof. split; vm_compute; reflexivity. Qed.
+
+(* ---- property C02 for the two record layers: whatever the buffer, the record parsers end in a parsed record or one of the
+   four documented errors, provided the message parser they hand the payload to does ---- *)
+Section RecordNoLeak.
+  Lemma ssl2_no_leak (msg : Z -> bytes -> result Z) types :
+    (forall t m e, msg t m <> Err (Leak e)) -> forall buf e, ssl2_parse msg types buf <> Err (Leak e).
+  Proof.
+    intros Hm buf e. unfold ssl2_parse.
+    assert (B : forall hdr rl pad rest, ssl2_body msg types hdr rl pad rest <> Err (Leak e)).
+    { intros hdr rl pad rest. unfold ssl2_body. destruct (zlen rest <? rl); [discriminate|].
+      destruct rest as [|t r]; [discriminate|]. destruct (negb (existsb (Z.eqb (b2z t)) types)); [discriminate|].
+      cbv zeta. destruct (rl - pad - 1 <? 0); [discriminate|].
+      destruct (msg (b2z t) (firstn (Z.to_nat (rl - pad - 1)) r)) as [c|e'] eqn:Em; cbn [bind].
+      - destruct (negb (c =? rl - pad - 1)); discriminate.
+      - intros H. injection H as He. subst e'. exact (Hm _ _ _ Em). }
+    destruct buf as [|b0 [|b1 r2]]; try discriminate.
+    destruct (128 <=? b2z b0); [apply B|]. destruct r2 as [|b2 r3]; [discriminate|apply B].
+  Qed.
+
+  Lemma ssh_no_leak (msg : bytes -> result unit) :
+    (forall m e, msg m <> Err (Leak e)) -> forall buf e, ssh_parse msg buf <> Err (Leak e).
+  Proof.
+    intros Hm buf e. unfold ssh_parse.
+    assert (B : forall pl rest, ssh_body msg pl rest <> Err (Leak e)).
+    { intros pl rest. unfold ssh_body. destruct (zlen rest <? pl); [discriminate|].
+      destruct rest as [|p r]; [discriminate|]. cbv zeta. destruct (pl - b2z p - 1 <? 0); [discriminate|].
+      destruct (msg (firstn (Z.to_nat (pl - b2z p - 1)) r)) as [u|e'] eqn:Em; cbn [bind]; [discriminate|].
+      intros H. injection H as He. subst e'. exact (Hm _ _ Em). }
+    destruct buf as [|b0 [|b1 [|b2 [|b3 rest]]]]; try discriminate. apply B.
+  Qed.
+
+  (* the message parsers of the runner satisfy the premise *)
+  Lemma ssl2_msg_no_leak codes t m e : ssl2_msg codes t m <> Err (Leak e).
+  Proof.
+    unfold ssl2_msg. destruct (t =? 0); [|discriminate]. destruct m as [|a [|b r]]; try discriminate.
+    destruct (existsb (Z.eqb (b2z a * 256 + b2z b)) codes); discriminate.
+  Qed.
+  Lemma ssh_msg_init_no_leak codes m e : ssh_msg_init codes m <> Err (Leak e).
+  Proof.
+    unfold ssh_msg_init. destruct m as [|t r]; [discriminate|].
+    destruct (negb (existsb (Z.eqb (b2z t)) codes)); [discriminate|].
+    destruct (b2z t =? 3).
+    - destruct (zlen r <? 4); [discriminate|]. destruct (4 <? zlen r); discriminate.
+    - destruct ((b2z t =? 1) || (b2z t =? 20)); discriminate.
+  Qed.
+End RecordNoLeak.
+
+Lemma record_message_parsers_no_leak codes :
+  (forall t m e, ssl2_msg codes t m <> Err (Leak e)) /\ (forall m e, ssh_msg_init codes m <> Err (Leak e)).
+Proof. exact (conj (ssl2_msg_no_leak codes) (ssh_msg_init_no_leak codes)). Qed.
